@@ -1322,6 +1322,387 @@ def run_history(hist, out, stats):
     return run
 
 
+# ----------------------------------------------------------------------------- formulas set from OBJECTS
+#
+# The formula of a cells can be set from an OBJECT that already is a formula somewhere else: the `Formula` object of
+# another cells (of another name, of the same name in another space, of a derived cells, of a cells in another model,
+# of a cells that was renamed), the `formula` of a parametrised SPACE, a function object whose `__name__` is not the
+# cells' name, a bound method (not a supported form: refused) - through every way a formula gets into a cells:
+# `cells.formula = obj`, `cells.set_formula(obj)`, `defcells(space=, name=)(obj)` onto an existing cells,
+# `new_cells(name, formula=obj)`, `new_cells(formula=obj)` (the name comes from the object), `Cells.copy(space, name)`.
+# C20 says the same thing for all of them: the cells behaves like the function, its source is a self-contained
+# definition of it under the cells' OWN name (so `formula.name` is that name), creating a cells from the source
+# reproduces it, and rename / doc edits afterwards change nothing else.  The model is asked what it is asked for a
+# cells created from the TEXT under that name (capture of a captured text under another name = capture of the text
+# under that name: `capture_idempotent_text`, `rename_round_trip_text`).
+
+SETOBJ_WHAT = ["formula", "formula-same-name", "formula-derived", "formula-other-model", "formula-renamed",
+               "space-formula", "function", "bound-method"]
+SETOBJ_SETTERS = ["attr", "set_formula", "defcells", "new_cells", "new_cells_noname", "copy"]
+SETOBJ_PRE = {"def": "def %s(x):\n    'old doc'\n    return -1\n", "lam": "lambda x: -1"}
+BOUND_METHOD_MODULE = "class Holder:\n    def %s(self, x):\n        return x + 1\n\nbm = Holder().%s\n"
+
+
+def setobj_applicable(what, setter):
+    if setter == "copy":
+        return what.startswith("formula")       # Cells.copy copies a cells
+    return True
+
+
+def def_name_of(src):
+    """the name after the first `def` of the text (None: no def)"""
+    try:
+        span = def_name_token(src)
+    except Exception:   # noqa
+        return None
+    return None if span is None else src[span[0]:span[1]]
+
+
+class SetObjRun(Run):
+    """one `via: setobj` history on the implementation"""
+
+    no_model = False
+
+    def expect(self, op, impl_line, tag):
+        if self.no_model:
+            return
+        Run.expect(self, op, impl_line, tag)
+
+    def references(self, case, text, ref):
+        argsets = sample_args(case.pnames)
+        refvals = call_all(ref, argsets)
+        dedent_vals = None
+        if case.string_sensitive:
+            try:
+                if case.kind == "def":
+                    ns = reference_namespace()
+                    exec(compile(textwrap.dedent(text), "<dedented>", "exec"), ns)
+                    dedent_vals = call_all(ns[case.name], argsets)
+                else:
+                    lam = "\n".join(l if l.strip(" \t") else "" for l in case.lam)
+                    dedent_vals = call_all(eval(compile("(" + lam + "\n)", "<dedented>", "eval"),
+                                                reference_namespace()), argsets)
+            except Exception:   # noqa
+                dedent_vals = None
+        split_vals = None
+        if has_other_line_boundary(text) and case.kind in ("def", "raw"):
+            try:
+                ns = reference_namespace()
+                exec(compile("\n".join(textwrap.dedent(text).splitlines()) + "\n", "<splitlines>", "exec"), ns)
+                split_vals = call_all(ns[case.name], argsets)
+            except Exception:   # noqa
+                split_vals = [("does-not-compile", "")]
+        return argsets, refvals, dedent_vals, split_vals
+
+    def push(self, c, argsets, refvals, sensitive, dedent_vals, split_vals):
+        self.cells.append(c)
+        self.refs.append(refvals)
+        self.argsets.append(argsets)
+        self.sensitive.append(sensitive)
+        self.dedent_refs.append(dedent_vals)
+        self.split_refs.append(split_vals)
+
+    def own_formula(self, when, what, setter):
+        """the formula of every cells of the chain is a definition under the cells' own name"""
+        for lvl, c in enumerate(self.cells):
+            f = c._impl.formula
+            if f._is_lambda:
+                continue
+            if f.name != c.name:
+                self.fail("the formula of cells %r is named %r %s" % (c.name, f.name, when),
+                          detail={"what": what, "setter": setter, "level": lvl, "source": f.source})
+            elif def_name_of(f.source) != c.name:
+                self.fail("formula.source of cells %r is a definition under the name %r %s" % (
+                    c.name, def_name_of(f.source), when),
+                    detail={"what": what, "setter": setter, "level": lvl, "source": f.source})
+
+    def run(self):
+        h = self.h
+        case = case_from_json(h["base"])
+        what, setter, dstname, srcname = h["what"], h["setter"], h["dst"], h["src"]
+        self.no_model = case.kind == "raw" or bool(h.get("no_model"))
+        text, wf = self.render(case)
+        if not wf:
+            raise core.Infra("the generator produced a structure outside the theorems' domain (wf = false): %r" % text)
+        self.stats.feat(["setobj_what_" + what, "setobj_setter_" + setter, "setobj_kind_" + case.kind])
+        with quiet():
+            m = self.model = mx.new_model()
+            self.scratch = m.new_space("Scratch")
+            self.scratch.G = G_VALUE
+            S0 = m.new_space("S0")
+            S0.G = G_VALUE
+            T = m.new_space("T")
+            T.G = G_VALUE
+        self.spaces.append(S0)
+        ref = self.func_obj if what in ("function", "bound-method") else reference_function(case, text)
+        argsets, refvals, dedent_vals, split_vals = self.references(case, text, ref)
+
+        # ---- the object
+        srccells, obj = None, self.func_obj
+        try:
+            with quiet():
+                if what in ("formula", "formula-renamed"):
+                    home = T if setter == "new_cells_noname" else S0
+                    if what == "formula-renamed":
+                        srccells = home.new_cells(name="before_rename", formula=text)
+                        srccells.rename(srcname)
+                    else:
+                        srccells = home.new_cells(name=srcname, formula=text)
+                elif what == "formula-same-name":
+                    srccells = T.new_cells(name=dstname, formula=text)
+                elif what == "formula-derived":
+                    T.new_cells(name=srcname, formula=text)
+                    T1 = m.new_space("T1", bases=T)
+                    srccells = T1.cells[srcname]
+                elif what == "formula-other-model":
+                    m2 = mx.new_model()
+                    U = m2.new_space("U")
+                    U.G = G_VALUE
+                    srccells = U.new_cells(name=srcname, formula=text)
+                elif what == "space-formula":
+                    obj = m.new_space("P", formula=text).formula
+                if srccells is not None:
+                    obj = srccells.formula
+        except Exception as e:   # noqa
+            # the TEXT itself is refused by capture (known findings about layouts): not this family's subject
+            self.fail("a definition of the grammar was refused (%s)" % type(e).__name__,
+                      detail={"text": text, "error": err_kind(e)},
+                      key=("C20-underindented-continuation" if (isinstance(e, SyntaxError) and underindented(text))
+                           else "C20-splitlines-in-body" if (isinstance(e, SyntaxError) and split_vals is not None)
+                           else None))
+            self.stop = True
+            return
+        src_before = (srccells.name, srccells.formula.source, srccells.formula.name) if srccells is not None else None
+
+        # ---- the cells that gets it
+        pre = None
+        with quiet():
+            if setter in ("attr", "set_formula", "defcells"):
+                pre_text = SETOBJ_PRE["def"] % dstname if h.get("pre", "def") == "def" else SETOBJ_PRE["lam"]
+                pre = S0.new_cells(name=dstname, formula=pre_text)
+            if h.get("sub"):
+                self.spaces.append(m.new_space("S1", bases=S0))
+        before_names = set(S0.cells)
+        pre_obs = (pre.formula.source, pre.doc, tuple(pre.parameters), call_all(pre, [(0,), (1,)])) \
+            if pre is not None else None
+        err = None
+        try:
+            with quiet():
+                if setter == "attr":
+                    pre.formula = obj
+                elif setter == "set_formula":
+                    pre.set_formula(obj)
+                elif setter == "defcells":
+                    mx.defcells(space=S0, name=dstname)(obj)
+                elif setter == "new_cells":
+                    S0.new_cells(name=dstname, formula=obj)
+                elif setter == "new_cells_noname":
+                    S0.new_cells(formula=obj)
+                elif setter == "copy":
+                    srccells.copy(S0, dstname)
+        except Exception as e:   # noqa
+            err = e
+        if err is not None:
+            if what == "bound-method":
+                # not a supported form of definition: refused, and nothing may have changed
+                self.stats.feat(["setobj_refused_unsupported"])
+                if set(S0.cells) != before_names:
+                    self.fail("a refused formula object left a cells behind", detail={"cells": sorted(S0.cells)})
+                if pre is not None and (pre.formula.source, pre.doc, tuple(pre.parameters),
+                                        call_all(pre, [(0,), (1,)])) != pre_obs:
+                    self.fail("a refused formula object changed the cells it was offered to",
+                              detail={"before": pre_obs[0], "after": pre.formula.source})
+            else:
+                self.fail("setting a formula from an object (%s) through %s raised %s" % (
+                    what, setter, type(err).__name__), detail={"error": err_kind(err), "text": text})
+            self.stop = True
+            return
+        if setter == "new_cells_noname":
+            new = sorted(set(S0.cells) - before_names)
+            if len(new) != 1:
+                self.fail("new_cells(formula=<object>) did not create exactly one cells", detail={"new": new})
+                self.stop = True
+                return
+            dstname = new[0]
+        dst = S0.cells[dstname]
+        if not self.no_model:
+            if case.kind == "def":
+                self.model_ops.append(case.op("new", "def", esc(dstname)))
+            else:
+                self.model_ops.append(case.op("new", "lam", "text", esc(dstname)))
+            self.impl_lines.append("ok")
+            self.tags.append("create")
+        self.push(dst, argsets, refvals, case.string_sensitive, dedent_vals, split_vals)
+        if h.get("sub"):
+            self.push(self.spaces[1].cells[dstname], argsets, refvals, case.string_sensitive, dedent_vals, split_vals)
+            self.expect("sub\tderived", "ok", "sub")
+        self.obs_all("after the formula was set from an object")
+
+        # ---- the clauses
+        self.own_formula("after it was set from an object (%s, %s)" % (what, setter), what, setter)
+        for lvl in range(len(self.cells)):
+            self.check_values(lvl, "after its formula was set from an object")
+            self.check_exec_source(lvl, "after its formula was set from an object")
+        # the same source as a cells of that name made from the TEXT
+        try:
+            with quiet():
+                twin = self.scratch.new_cells(name=dst.name, formula=text)
+            if twin.formula.source != dst.formula.source or tuple(twin.parameters) != tuple(dst.parameters) \
+                    or norm_doc(twin.doc) != norm_doc(dst.doc):
+                self.fail("a formula set from an object differs from the same definition given as text",
+                          detail={"what": what, "setter": setter, "from_object": dst.formula.source,
+                                  "from_text": twin.formula.source})
+        except Exception:   # noqa
+            pass
+        finally:
+            if dst.name in self.scratch.cells:
+                del self.scratch.cells[dst.name]
+        self.check_fixed_point(0, "after its formula was set from an object")
+        if src_before is not None and srccells._is_valid() and \
+                (srccells.name, srccells.formula.source, srccells.formula.name) != src_before:
+            self.fail("setting a formula from the Formula object of another cells changed that cells",
+                      detail={"before": list(src_before),
+                              "after": [srccells.name, srccells.formula.source, srccells.formula.name]})
+        # ... and the other way round: the Formula object of a cells as the parameter formula of a SPACE is a
+        # definition under the name a space formula has, with the same parameters
+        if srccells is not None:
+            try:
+                with quiet():
+                    Q = m.new_space("Q")
+                    Q.formula = obj
+                qf = Q.formula
+            except Exception:   # noqa
+                qf = None
+            if qf is not None:
+                self.stats.feat(["setobj_cells_formula_to_space"])
+                if tuple(qf.parameters) != tuple(dst.parameters) or \
+                        (not qf._is_lambda and (qf.name != "_formula" or def_name_of(qf.source) != "_formula")):
+                    self.fail("the formula of a space set from the Formula object of a cells is not that definition "
+                              "under the name `_formula`", detail={"source": qf.source, "cells": dst.formula.source})
+                if (srccells.name, srccells.formula.source, srccells.formula.name) != src_before:
+                    self.fail("setting a space formula from the Formula object of a cells changed that cells",
+                              detail={"before": list(src_before), "after": [srccells.name, srccells.formula.source]})
+        for op in h["ops"]:
+            if self.stop:
+                break
+            self.stats.op(op[0])
+            getattr(self, "op_" + op[0])(*op[1:])
+        if not self.stop:
+            self.own_formula("after the rename / doc edits that followed", what, setter)
+
+
+def setobj_module(h, tmp):
+    """the function object / bound method of a `setobj` history: defined in a module file of its own"""
+    if "module" not in h:
+        return None
+    _STAMP[0] += 1
+    name = "c20mod_setobj_%d" % _STAMP[0]
+    path = os.path.join(tmp, name + ".py")
+    with open(path, "w", encoding="utf-8") as f:
+        f.write(h["module"])
+    spec = importlib.util.spec_from_file_location(name, path)
+    mod = importlib.util.module_from_spec(spec)
+    try:
+        spec.loader.exec_module(mod)
+    except Exception as e:   # noqa
+        raise core.Infra("generated module does not import: %s\n%s" % (e, h["module"][:2000]))
+    return getattr(mod, h["accessor"])
+
+
+def run_setobj(h, out, stats, tmp):
+    close_all()
+    fobj = setobj_module(h, tmp)
+    run = SetObjRun(h, out, stats, func_obj=fobj)
+    try:
+        run.run()
+    finally:
+        close_all()
+    return run
+
+
+def gen_setobj(rng, what, setter, case=None):
+    """one history of the family (None when the combination does not exist)"""
+    if not setobj_applicable(what, setter):
+        return None
+    if case is None:
+        if what in ("function", "bound-method") or rng.random() < 0.7:
+            case = gen_def(rng)
+        else:
+            case = gen_lam(rng)
+    srcname = case.name if case.kind == "def" and rng.random() < 0.5 else rng.choice(NAMES)
+    dst = rng.choice([n for n in NEWNAMES if n != srcname])
+    h = {"via": "setobj", "base": None, "what": what, "setter": setter, "src": srcname, "dst": dst,
+         "pre": rng.choice(["def", "def", "lam"]), "sub": rng.random() < 0.35, "ops": []}
+    if what == "function":
+        # what modelx is given is inspect.getsource(func): the definition lines only
+        case = DefCase.from_json(case.to_json())
+        case.lead, case.trail = [], []
+        case.name = "fn_" + srcname
+        prerender([case])
+        text = core_render(case)
+        h["module"] = NS_PRELUDE + "\n" + (("if True:\n" + text) if case.pre else text) + \
+            (case.pre + "fobj = %s\n" % case.name)
+        h["accessor"] = "fobj"
+    elif what == "bound-method":
+        case = DefCase()
+        case.name, case.sig, case.pnames, case.after = srcname, "(x):", ["x"], "return x + 1"
+        h["module"] = BOUND_METHOD_MODULE % (srcname, srcname)
+        h["accessor"] = "bm"
+        h["no_model"] = True
+    h["base"] = case.to_json()
+    names = [n for n in NEWNAMES if n not in (dst, srcname)]
+    rng.shuffle(names)
+    for _ in range(rng.choice([1, 2, 2, 3])):
+        k = rng.random()
+        if k < 0.45:
+            h["ops"].append(["rename", names.pop() if names else "again"])
+        elif k < 0.85:
+            h["ops"].append(["setdoc", rng.randrange(2), 1 if rng.random() < 0.3 else 0,
+                             rng.choice(DOCS_PLAIN + DOCS_ESCAPED[:6])])
+        else:
+            h["ops"].append(["recreate", 0])
+    return h
+
+
+def setobj_histories(ctx):
+    """every (object, setter) combination with a plain def and with a lambda; generated layouts on top"""
+    hs = []
+    plain = DefCase()
+    plain.name, plain.sig, plain.pnames = "foo", "(x, y=2):", ["x", "y"]
+    plain.doc = ('"""', ["Doc of foo."], '"""')
+    plain.rest = ["    return x * y + G"]
+    lam = LamCase()
+    lam.lam, lam.pnames, lam.pfx = ["lambda x, y=2: x * y + G"], ["x", "y"], "f = "
+    for what in SETOBJ_WHAT:
+        for setter in SETOBJ_SETTERS:
+            for ci, case in enumerate((plain, lam)):
+                if ci == 1 and what in ("function", "bound-method"):
+                    continue
+                h = gen_setobj(ctx.rng("setobj-fixed", what, setter, ci), what, setter,
+                               case=case_from_json(case.to_json()))
+                if h is not None:
+                    hs.append(h)
+    for i in range(ctx.n(70, 2500)):
+        rng = ctx.rng("setobj", i)
+        h = None
+        while h is None:
+            h = gen_setobj(rng, rng.choice(SETOBJ_WHAT[:-1]), rng.choice(SETOBJ_SETTERS))
+        hs.append(h)
+    return hs
+
+
+def run_setobj_stream(ctx, out, stats, tmp, first=()):
+    hs = list(first) + setobj_histories(ctx)
+    CH = 60
+    for k in range(0, len(hs), CH):
+        chunk = hs[k:k + CH]
+        prerender([case_from_json(h["base"]) for h in chunk])
+        runs = [run_setobj(h, out, stats, tmp) for h in chunk]
+        compare_batch(runs, out)
+        RENDER.clear()
+    return len(hs)
+
+
 # ----------------------------------------------------------------------------- function / lambda objects
 
 def build_module(cases, path):
@@ -1946,7 +2327,8 @@ def run(ctx, out):
     n_obj_batches = ctx.n(4, 60)
     corpus = corpus_histories()
     reload_corpus = [h for h in corpus if h.get("via") == "reload"]
-    hists = [h for h in corpus if h.get("via") != "reload"] + fixed_histories()
+    setobj_corpus = [h for h in corpus if h.get("via") == "setobj"]
+    hists = [h for h in corpus if h.get("via") not in ("reload", "setobj")] + fixed_histories()
     n_fixed = len(hists)
     for i in range(n_hist):
         hists.append(gen_history(ctx.rng("hist", i), i))
@@ -1967,6 +2349,7 @@ def run(ctx, out):
         for b in range(n_obj_batches):
             run_object_batch(ctx.rng("objects", b), 8, out, stats, tmp, b)
         run_reload_stream(ctx, ctx.n(10, 150), out, stats, tmp, first=reload_corpus)
+        n_setobj = run_setobj_stream(ctx, out, stats, tmp, first=setobj_corpus)
     finally:
         shutil.rmtree(tmp, ignore_errors=True)
         for k in [k for k in sys.modules if k.startswith("c20mod_")]:
@@ -1979,11 +2362,15 @@ def run(ctx, out):
         "distinct_nontrivial": nontrivial,
         "rule": "histories = one generated definition layout (def or lambda, text) + optional sub spaces that derive or "
                 "override + 1-4 edits (rename / set_doc with plain, escaped-character and generated texts / "
-                "re-creation); non-trivial = the layout has at least one "
+                "re-creation); plus formulas set from OBJECTS (Formula objects of other cells - other name, same name in "
+                "another space, derived, other model, renamed -, the formula of a parametrised space, function objects of "
+                "another name, bound methods) through every setter (formula =, set_formula, defcells onto an existing cells, "
+                "new_cells with and without a name, Cells.copy), followed by rename / set_doc; non-trivial = the layout has at least one "
                 "grammar feature beyond a plain def and at least one edit; evaluations = calls of cells compared with the "
                 "plain Python function",
         "samples": stats.samples,
-        "programs": len(seen) + n_obj_batches * 8,
+        "programs": len(seen) + n_obj_batches * 8 + n_setobj,
+        "formulas_set_from_objects": n_setobj,
         "input_distribution": {"features": dict(sorted(stats.features.items())), "ops": stats.ops,
                                "edit_kinds_seen": sorted(map(str, stats.nontrivial)),
                                "layouts_compared_with_asttokens": stats.layouts,
@@ -2020,6 +2407,14 @@ def replay(ctx, payload, out):
             shutil.rmtree(tmp, ignore_errors=True)
             for k in [k for k in sys.modules if k.startswith("c20reload_") or k == PRELUDE_MODULE]:
                 del sys.modules[k]
+        return
+    if h.get("via") == "setobj":
+        tmp = tempfile.mkdtemp(prefix="mxh_c20_")
+        try:
+            prerender([case_from_json(h["base"])])
+            compare_batch([run_setobj(h, out, stats, tmp)], out)
+        finally:
+            shutil.rmtree(tmp, ignore_errors=True)
         return
     if h.get("via") == "object":
         tmp = tempfile.mkdtemp(prefix="mxh_c20_")
